@@ -308,7 +308,7 @@ def lower4(ctx) -> List[Ob]:
         if arm.test is None:
             continue
         appends = [c for c in method_calls(ast.Module(arm.body, []), "append") if isinstance(c.func.value, ast.Attribute) and c.func.value.attr == "instructions"]
-        handlers = [c for c in A.walk_no_nested(ast.Module(arm.body, [])) if isinstance(c, ast.Call) and isinstance(c.func, ast.Attribute) and c.func.attr.startswith("handle_") and c.func.attr != "handle_expression"]
+        handlers = [c for c in A.walk_no_nested(ast.Module(arm.body, [])) if isinstance(c, ast.Call) and isinstance(c.func, ast.Attribute) and c.func.attr.lstrip("_").startswith("handle_") and c.func.attr.lstrip("_") != "handle_expression"]
         label = A.unparse(arm.test)[:60]
         key = f"dispatcher arm {A.alpha_key(arm.test)[:80]}"
         where = ctx.where(disp_fn, arm.node)
@@ -1183,7 +1183,13 @@ def _nonempty_list(ctx, fn, e: ast.AST, depth: int = 0) -> Optional[bool]:
     if isinstance(e, ast.Name) and depth < 3:
         v = see_through(ctx, fn, e)
         if v is not None and v is not e:
-            return _nonempty_list(ctx, fn, v, depth + 1)
+            r = _nonempty_list(ctx, fn, v, depth + 1)
+            if r is False:
+                # an empty display that is filled afterwards (append / extend / +=) is not empty by construction
+                grown = any(isinstance(c, ast.Call) and isinstance(c.func, ast.Attribute) and c.func.attr in ("append", "extend", "insert") and isinstance(c.func.value, ast.Name) and c.func.value.id == e.id for c in ast.walk(fn.node))
+                grown = grown or any(isinstance(a, ast.AugAssign) and isinstance(a.target, ast.Name) and a.target.id == e.id for a in ast.walk(fn.node))
+                return None if grown else False
+            return r
     return None
 
 
